@@ -394,6 +394,100 @@ example : (match Csv.importRows [[1, 2], [3, 4], [5, 6]] 2 with
     | .ok (d : DataSet Nat) => d.wf 2 && d.batches == [2, 1]
     | _ => false) = true := by decide
 
+/-! ## exporters then importers (token level) -/
+
+/-- **CSV round trip, classification (token level).**  The records `exportCSV` writes for a
+labelled dataset — per element the class index and the `d` values — are read back by the
+importer logic as the same elements with the same labels, for every maximum batch size,
+provided class 0 occurs (the importer shifts labels by their minimum: see `csv_roundtrip_shift_witness`).
+Label position and separator only matter to the lexer (`Model/Peg.lean`), exercised by the
+correspondence stream `rt`. -/
+theorem csv_roundtrip (pts : List (Nat × List V)) (d maxB : Nat) (hd : ∀ p ∈ pts, p.2.length = d)
+    (hne : pts ≠ []) (h0 : 0 ∈ pts.map (·.1)) :
+    Csv.importClass (pts.map fun p => (Int.ofNat p.1, p.2)) maxB =
+      .ok { shape := some d, lshape := none, batches := optimalBatchSizes pts.length maxB,
+            rows := pts.map (fun p => Row.dense p.2), labels := .cls (pts.map (·.1)) } := by
+  unfold Csv.importClass
+  cases hp : pts with
+  | nil => exact absurd hp hne
+  | cons p0 t =>
+    rw [← hp]
+    have hmap : (List.map (fun p => (Int.ofNat p.1, p.2)) pts) = (Int.ofNat p0.1, p0.2) :: t.map (fun p => (Int.ofNat p.1, p.2)) := by
+      rw [hp]; rfl
+    rw [hmap]
+    simp only
+    rw [← hmap]
+    have hl : classLabels (List.map (fun p => some p.1) (List.map (fun p => (Int.ofNat p.1, p.2)) pts))
+        = some (pts.map (·.1)) := by
+      have := classLabels_nat (pts.map (·.1)) h0
+      simpa [List.map_map, Function.comp_def] using this
+    rw [hl]
+    simp only
+    have hd0 : p0.2.length = d := hd p0 (by rw [hp]; simp)
+    have hall : ((List.map (fun p => (Int.ofNat p.1, p.2)) pts).all fun p => p.2.length == p0.2.length) = true := by
+      rw [List.all_eq_true]
+      intro q hq
+      obtain ⟨p, hpm, rfl⟩ := List.mem_map.mp hq
+      simp [hd p hpm, hd0]
+    rw [if_pos hall]
+    simp [hd0, List.map_map, Function.comp_def]
+
+/-- without class 0 the importer renumbers the classes (by design: "class indices starting from
+0 and 1 are supported"), so the round trip is not the identity -/
+theorem csv_roundtrip_shift_witness :
+    Csv.importClass [((1 : Int), [(7 : Nat)]), (2, [8])] 256 =
+      .ok { shape := some 1, lshape := none, batches := [2],
+            rows := [.dense [7], .dense [8]], labels := .cls [0, 1] } := by decide
+
+/-- **CSV round trip, regression (token level)**: rows written as `labels ++ inputs`
+(`FIRST_COLUMN`) or `inputs ++ labels` (`LAST_COLUMN`) are split back into the same inputs
+and labels. -/
+theorem csv_roundtrip_regression (pts : List (List V × List V)) (labelFirst : Bool) (dIn dOut maxB : Nat)
+    (hin : ∀ p ∈ pts, p.1.length = dIn) (hout : ∀ p ∈ pts, p.2.length = dOut) (hpos : 0 < dIn)
+    (hne : pts ≠ []) :
+    Csv.importRegr (pts.map fun p => if labelFirst then p.2 ++ p.1 else p.1 ++ p.2) labelFirst dOut maxB =
+      .ok { shape := some dIn, lshape := some dOut, batches := optimalBatchSizes pts.length maxB,
+            rows := pts.map (fun p => Row.dense p.1), labels := .reg (pts.map (·.2)) } := by
+  unfold Csv.importRegr
+  cases hp : pts with
+  | nil => exact absurd hp hne
+  | cons p0 t =>
+    rw [← hp]
+    have hmap : (pts.map fun p => if labelFirst then p.2 ++ p.1 else p.1 ++ p.2)
+        = (if labelFirst then p0.2 ++ p0.1 else p0.1 ++ p0.2) :: t.map (fun p => if labelFirst then p.2 ++ p.1 else p.1 ++ p.2) := by
+      rw [hp]; rfl
+    rw [hmap]
+    simp only
+    rw [← hmap]
+    have h0i := hin p0 (by rw [hp]; simp)
+    have h0o := hout p0 (by rw [hp]; simp)
+    have hlen0 : (if labelFirst then p0.2 ++ p0.1 else p0.1 ++ p0.2).length = dIn + dOut := by
+      cases labelFirst <;> simp [h0i, h0o, Nat.add_comm]
+    rw [hlen0]
+    rw [if_neg (by omega)]
+    have hall : ((pts.map fun p => if labelFirst then p.2 ++ p.1 else p.1 ++ p.2).all fun r => r.length == dIn + dOut) = true := by
+      rw [List.all_eq_true]
+      intro q hq
+      obtain ⟨p, hpm, rfl⟩ := List.mem_map.mp hq
+      cases labelFirst <;> simp [hin p hpm, hout p hpm, Nat.add_comm]
+    rw [if_pos hall]
+    have hsub : dIn + dOut - dOut = dIn := by omega
+    simp only [hsub, List.map_map, Function.comp_def, List.length_map, Outcome.ok.injEq, DataSet.mk.injEq,
+      true_and, Labels.reg.injEq]
+    constructor
+    · apply List.map_congr_left
+      intro p hpm
+      have hi := hin p hpm; have ho := hout p hpm
+      cases labelFirst
+      · simp [← hi]
+      · simp [← ho, ← hi]
+    · apply List.map_congr_left
+      intro p hpm
+      have hi := hin p hpm; have ho := hout p hpm
+      cases labelFirst
+      · simp [← hi, ← ho]
+      · simp [← ho]
+
 /-! ### witnesses: what the current code does without the hypothesis (DESIGN §7 F2) -/
 
 /-- `"1 3:1 1:1\n"`: dimension 1 is taken from the last index, index 3 is written at 2 -/
